@@ -283,6 +283,26 @@ inline std::vector<Program> set_curated( bool with_delete, bool with_extract, st
     return v;
 }
 
+// unlink( item ) of the intrusive API: removes exactly that item. INS_F inserts items with another identity than the prefix items
+template <class Adapter>
+inline void add_unlink_programs( std::vector<cdsmc::Scenario>& out, std::string const& base, std::vector<int> km, std::vector<int> universe, int step, int bq, int bt )
+{
+    add_set_programs<Adapter>( out, base, set_grammar( { UNLINK, INS_F, DEL }, { km[1], km[2] }, 2, "u" ), 2, 3, step, bq, bt, universe );
+    auto P = [&]( std::string name, TProg pre, std::vector<TProg> th ) {
+        Program p; p.name = name; p.prefix = pre; p.threads = th;
+        for ( auto& o : p.prefix ) o.a = km[size_t( o.a )];
+        for ( auto& t : p.threads ) for ( auto& o : t ) o.a = km[size_t( o.a )];
+        SetCfg cfg = universe.empty() ? SetCfg( int( th.size()), 3 ) : SetCfg( int( th.size()), universe );
+        out.push_back( make_scenario<Adapter>( base, p, cfg, 0, th.size() > 2 ? 2 : bq, th.size() > 2 ? 2 : bt ));
+    };
+    P( "unlink-vs-ins-next", { { INS, 1, 0 }, { INS, 3, 0 } }, { { { UNLINK, 1, 0 }, { HAS, 1, 0 } }, { { INS, 2, 0 }, { HAS, 1, 0 } } } );
+    P( "unlink-vs-del-next", { { INS, 1, 0 }, { INS, 2, 0 } }, { { { UNLINK, 1, 0 }, { HAS, 2, 0 } }, { { DEL, 2, 0 }, { HAS, 1, 0 } } } );
+    P( "unlink-vs-unlink", { { INS, 1, 0 }, { INS, 2, 0 } }, { { { UNLINK, 1, 0 }, { UNLINK, 2, 0 } }, { { UNLINK, 2, 0 }, { UNLINK, 1, 0 } } } );
+    P( "unlink-vs-replace", { { INS, 1, 0 } }, { { { UNLINK, 1, 0 }, { FIND_F, 1, 0 } }, { { DEL, 1, 0 }, { INS_F, 1, 17 } } } );
+    P( "unlink-vs-extract", { { INS, 1, 0 }, { INS, 2, 0 } }, { { { UNLINK, 1, 0 } }, { { EXTRACT, 1, 0 }, { GET, 2, 0 } } } );
+    P( "3t-unlink-ins-ins", { { INS, 2, 0 } }, { { { UNLINK, 2, 0 } }, { { INS, 1, 0 } }, { { INS, 3, 0 }, { HAS, 2, 0 } } } );
+}
+
 } // namespace vh
 
 #endif
